@@ -10,7 +10,11 @@ import (
 
 // C07 — both storage back-ends behave as one ordered-mailbox model under any history.
 
-var c07Ops = func() []sop {
+// c07Spellings: ids that were never issued but read like one that was ("01" for "1", "+1"): they
+// name no message.
+var c07Spellings = []sop{{Kind: "get", MB: 0, Ref: "0#1"}, {Kind: "seen", MB: 0, Ref: "0#1"}, {Kind: "remove", MB: 0, Ref: "0#1"}, {Kind: "remove", MB: 0, Ref: "+#2"}}
+
+var c07Base = func() []sop {
 	var o []sop
 	o = append(o, sop{Kind: "add", MB: 0, Body: 0}, sop{Kind: "add", MB: 0, Body: 1}, sop{Kind: "add", MB: 1, Body: 0}, sop{Kind: "add", MB: 2, Body: 2})
 	for _, r := range []string{"#1", "#2", "latest", "nope", ""} {
@@ -31,6 +35,9 @@ var c07Ops = func() []sop {
 	o = append(o, sop{Kind: "reopen"})
 	return o
 }()
+
+// C07's own alphabet (C10 builds on c07Base)
+var c07Ops = append(append([]sop{}, c07Base...), c07Spellings...)
 
 type storeCase struct {
 	Spec sys.StoreSpec `json:"spec"`
